@@ -162,6 +162,23 @@ def run(ctx: Ctx) -> int:
     ok = bool(cnt) and any(isinstance(r, ast.Raise) for r in walk_local(cnt[0])) and '2 if flag == "c" else 1' in ast.unparse(cnt[0]).replace("'", '"')
     ctx.oblige("C19.b", ok, cnt[0] if cnt else cm, "repeated flags are rejected (c at most twice)" if ok else "repeat check of mode flags changed", fn=cm, construct="repeated flags")
 
+    # fixpoint walk to the nearest existing ancestor: `while ... and cur != prev:` must save prev = cur before
+    # cur is advanced, otherwise the loop stops after one step
+    n_fp = 0
+    for lp in [n_ for n_ in walk_local(init) if isinstance(n_, ast.While)]:
+        cmps = [x for x in ast.walk(lp.test) if isinstance(x, ast.Compare) and len(x.ops) == 1 and isinstance(x.ops[0], ast.NotEq) and isinstance(x.left, ast.Name) and isinstance(x.comparators[0], ast.Name)]
+        for cmp_ in cmps:
+            cur, prev = cmp_.left.id, cmp_.comparators[0].id
+            save = [s for s in lp.body if isinstance(s, ast.Assign) and isinstance(s.targets[0], ast.Name) and isinstance(s.value, ast.Name) and {s.targets[0].id, s.value.id} == {cur, prev}]
+            adv = [s for s in lp.body if isinstance(s, ast.Assign) and isinstance(s.targets[0], ast.Name) and not isinstance(s.value, ast.Name) and s.targets[0].id in (cur, prev)]
+            if not save or not adv:
+                continue
+            n_fp += 1
+            saved_var, advanced = save[0].targets[0].id, adv[0].targets[0].id
+            ok = saved_var != advanced and save[0].value.id == advanced and lp.body.index(save[0]) < lp.body.index(adv[0])
+            ctx.oblige("C19.b", ok, lp, f"`{saved_var}` remembers the previous `{advanced}` before it is advanced (the walk continues until a fixpoint)" if ok else f"`{saved_var}` is assigned after `{advanced}` was advanced: the loop condition `{ast.unparse(cmp_)}` fails after the first step, so only one missing parent level is tolerated for the doubled creatable flag", fn=init)
+    ctx.floor("C19.b-fixpoint-loops", n_fp, 1)
+
     # ---------------- C19.c ---------------------------------------------------
     n_sites = 0
     for fq, fn in ctx.repo.all_funcs():
